@@ -1831,4 +1831,89 @@ pub mod verif_hooks_op {
     ) -> Result<()> {
         expression.write(w, None, encoding, None)
     }
+
+    /// A public mirror of the operations that carry no entry references,
+    /// so that a single internal `Operation` can be sized and written
+    /// without going through an `Expression`'s heap storage.
+    #[derive(Debug, Clone, Copy, PartialEq, Eq)]
+    pub enum VerifOp {
+        /// `Operation::Simple`
+        Simple(DwOp),
+        /// `Operation::Address`
+        Address(Address),
+        /// `Operation::UnsignedConstant`
+        UnsignedConstant(u64),
+        /// `Operation::SignedConstant`
+        SignedConstant(i64),
+        /// `Operation::FrameOffset`
+        FrameOffset(i64),
+        /// `Operation::RegisterOffset`
+        RegisterOffset(Register, i64),
+        /// `Operation::Pick`
+        Pick(u8),
+        /// `Operation::Deref`
+        Deref(bool),
+        /// `Operation::DerefSize`
+        DerefSize(bool, u8),
+        /// `Operation::PlusConstant`
+        PlusConstant(u64),
+        /// `Operation::Skip` (target operation index)
+        Skip(usize),
+        /// `Operation::Branch` (target operation index)
+        Branch(usize),
+        /// `Operation::Register`
+        Register(Register),
+        /// `Operation::Piece`
+        Piece(u64),
+        /// `Operation::BitPiece`
+        BitPiece(u64, u64),
+        /// `Operation::WasmLocal`
+        WasmLocal(u32),
+        /// `Operation::WasmGlobal`
+        WasmGlobal(u32),
+        /// `Operation::WasmStack`
+        WasmStack(u32),
+    }
+
+    fn operation(op: VerifOp) -> Operation {
+        match op {
+            VerifOp::Simple(x) => Operation::Simple(x),
+            VerifOp::Address(x) => Operation::Address(x),
+            VerifOp::UnsignedConstant(x) => Operation::UnsignedConstant(x),
+            VerifOp::SignedConstant(x) => Operation::SignedConstant(x),
+            VerifOp::FrameOffset(x) => Operation::FrameOffset(x),
+            VerifOp::RegisterOffset(r, x) => Operation::RegisterOffset(r, x),
+            VerifOp::Pick(x) => Operation::Pick(x),
+            VerifOp::Deref(space) => Operation::Deref { space },
+            VerifOp::DerefSize(space, size) => Operation::DerefSize { space, size },
+            VerifOp::PlusConstant(x) => Operation::PlusConstant(x),
+            VerifOp::Skip(x) => Operation::Skip(x),
+            VerifOp::Branch(x) => Operation::Branch(x),
+            VerifOp::Register(x) => Operation::Register(x),
+            VerifOp::Piece(size_in_bytes) => Operation::Piece { size_in_bytes },
+            VerifOp::BitPiece(size_in_bits, bit_offset) => Operation::BitPiece {
+                size_in_bits,
+                bit_offset,
+            },
+            VerifOp::WasmLocal(x) => Operation::WasmLocal(x),
+            VerifOp::WasmGlobal(x) => Operation::WasmGlobal(x),
+            VerifOp::WasmStack(x) => Operation::WasmStack(x),
+        }
+    }
+
+    /// `Operation::size` of a single operation.
+    pub fn operation_size(op: VerifOp, encoding: Encoding) -> Result<usize> {
+        operation(op).size(encoding, None)
+    }
+
+    /// `Operation::write` of a single operation; `offsets` are the section offsets
+    /// of the operations of the enclosing expression (used by branches).
+    pub fn operation_write<W: Writer>(
+        op: VerifOp,
+        w: &mut W,
+        encoding: Encoding,
+        offsets: &[usize],
+    ) -> Result<()> {
+        operation(op).write(w, None, encoding, None, offsets)
+    }
 }
